@@ -27,3 +27,23 @@ Definition mk_case (tasks : list (N * N)) (root : list N) (syms : list (list N))
   {| k_tasks := tasks; k_root := root; k_syms := syms; k_recs := recs; k_sample := sample; k_graph := g;
      k_flame0 := f0; k_flameS := fS; k_dot := dot; k_mermaid := mm; k_chrome := ch; k_json_ok := ok;
      k_args := args; k_chrome_args := chargs |}.
+
+Require Import UV.C15.Doc.
+Definition mk_dcase (k : case) (comms : list (N * list N)) (version date : list N) (cmdline : option (list N))
+  (noev : bool) (doc : list N) : dcase :=
+  {| d_case := k; d_comms := comms; d_version := version; d_date := date; d_cmdline := cmdline;
+     d_noev := noev; d_doc := doc |}.
+Definition cm (tid : int) (comm : list N) : N * list N := (n_ tid, comm).
+
+Require Import UV.C15.GraphF.
+Definition mk_fcase (k : case) (func : list N) (rows : option (list grow)) : fcase :=
+  {| fk_case := k; fk_func := func; fk_rows := rows |}.
+
+Require Import UV.C15.GraphText.
+Definition mk_tcase (k : case) (func : option (list N)) (lines : list (list N)) : tcase :=
+  {| tk_case := k; tk_func := func; tk_lines := lines |}.
+
+Require Import UV.C15.BackTrace.
+Definition bt_ (key : list int) (hit : int) (t : option (N * N * N)) : pbt := (map n_ key, n_ hit, t).
+Definition mk_bcase (k : case) (func : list N) (printed : list pbt) : bcase :=
+  {| bk_case := k; bk_func := func; bk_printed := printed |}.
